@@ -2,7 +2,7 @@ HOOKS = dict(
     guard="verif",
     enable="go build -tags verif (the harness module /verif/harness replaces github.com/oneconcern/datamon with /repo)",
     baseline_off_cmd="bin/baseline_off.sh",
-    source_commits=[],
+    source_commits=["79be83f"],
     add_only=True,
 )
 ENGINES = [
